@@ -22,6 +22,7 @@ inductive SysOp where
   | delete
   | reload
   | addObs (name : Str) (id : Nat)
+  | reloadPanic (visited : List Nat)   -- a reload during whose notification round an observer panics
   deriving Repr
 
 structure Sys where
@@ -39,6 +40,10 @@ def Sys.step (nr : Bool) (s : Sys) : SysOp → Sys
   | .reload =>
     let r := reloadN nr verFull s.cfg s.file
     { s with cfg := r.1, obs := if notifies nr r.2 then s.obs.run else s.obs }
+  | .reloadPanic ids =>
+    -- the map was merged before the observers ran; reload recovers the panic; only `ids` were visited
+    let r := reloadN nr verFull s.cfg s.file
+    { s with cfg := r.1, obs := if notifies nr r.2 then s.obs.runPartial ids else s.obs }
 
 def Sys.run (nr : Bool) (s : Sys) (ops : List SysOp) : Sys := ops.foldl (Sys.step nr) s
 
@@ -51,6 +56,9 @@ def project (nr : Bool) (s : Sys) : List SysOp → List ObsOp
     | .addObs n i => .add n i :: project nr (s.step nr op) r
     | .reload =>
       if notifies nr (reloadN nr verFull s.cfg s.file).2 then .run :: project nr (s.step nr op) r
+      else project nr (s.step nr op) r
+    | .reloadPanic ids =>
+      if notifies nr (reloadN nr verFull s.cfg s.file).2 then .runPartial ids :: project nr (s.step nr op) r
       else project nr (s.step nr op) r
     | _ => project nr (s.step nr op) r
 
@@ -72,12 +80,20 @@ theorem sys_obs (nr : Bool) (s : Sys) (ops : List SysOp) :
         simp [Sys.step, h, Obs.exec, Obs.step]
       · rename_i h
         simp [Sys.step, h]
+    | reloadPanic ids =>
+      simp only [project]
+      split
+      · rename_i h
+        simp [Sys.step, h, Obs.exec, Obs.step]
+      · rename_i h
+        simp [Sys.step, h]
 
 /-- how often the configuration counted a notification = number of notifying reloads -/
 def roundsOf : List ObsOp → Nat
   | [] => 0
   | .run :: r => 1 + roundsOf r
   | .runReg _ _ _ :: r => 1 + roundsOf r
+  | .runPartial _ :: r => 1 + roundsOf r
   | _ :: r => roundsOf r
 
 /-- **Notification clause over histories.**  For every history of edits, deletions, reloads and
@@ -115,12 +131,14 @@ theorem reload_frame (ver : FileSt → Ver) (c : Cfg) (file : Option FileSt)
       · exact ⟨rfl, rfl⟩
       · rename_i props hp; simp [hp] at h1
 
-theorem step_frame (nr : Bool) (s : Sys) (op : SysOp) (h : op = .reload → False) :
+theorem step_frame (nr : Bool) (s : Sys) (op : SysOp) (h : op = .reload → False)
+    (h2 : ∀ ids, op = .reloadPanic ids → False) :
     (s.step nr op).cfg = s.cfg := by
   cases op with
   | edit f => rfl
   | delete => rfl
   | addObs n i => rfl
+  | reloadPanic ids => exact (h2 ids rfl).elim
   | reload => exact (h rfl).elim
 
 end Conf
